@@ -244,6 +244,15 @@ func runC01(c *Ctx) {
 			c.St.Eval("i"+strconv.Itoa(v), false)
 		}
 	}
+	c.omoList("C01")
+	c.omoObj("C01")
+	// long strings and long lists
+	long := make([]*Tree, 1100)
+	for i := range long {
+		long[i] = tInt(i)
+	}
+	c.rtLine(&Tree{K: '[', Xs: long})
+	c.rtLine(list1(tStr(strings.Repeat("ab\\\"é\n", 2000))))
 	// empty containers, nesting
 	c.rtLine(&Tree{K: '['})
 	c.rtLine(&Tree{K: '{'})
@@ -815,6 +824,42 @@ func runC07(c *Ctx) {
 			c.equalsLine(a, d)
 		}
 	}
+	c.omoList("C07")
+	c.omoObj("C07")
+	c.derivedCorners("C07")
+	// long lists that differ only near the end, and deep trees that differ at the bottom
+	for _, n := range []int{255, 1023, 1024, 1025, 1026, 1027, 1030} {
+		for back := 1; back <= 4; back++ {
+			a := &Tree{K: '['}
+			for i := 0; i < n; i++ {
+				a.Xs = append(a.Xs, tInt(i%7))
+			}
+			b := cloneTree(a)
+			b.Xs[n-back] = tFloat(float64((n - back) % 7))
+			c.equalsLine(a, b)
+			c.equalsLine(obj1("k", a), obj1("k", b))
+			c.equalsLine(a, cloneTree(a))
+			d := cloneTree(a)
+			d.Xs = d.Xs[:n-back] // a proper prefix
+			c.equalsLine(a, d)
+			c.equalsLine(obj1("k", d), obj1("k", a))
+		}
+	}
+	for _, depth := range []int{64, 65, 300, c.N(600, 3000)} {
+		mk := func(leaf *Tree) *Tree {
+			t := list1(leaf)
+			for i := 0; i < depth; i++ {
+				if i%2 == 0 {
+					t = obj1("k", t)
+				} else {
+					t = list1(t)
+				}
+			}
+			return t
+		}
+		c.equalsLine(mk(tInt(1)), mk(tInt(1)))
+		c.equalsLine(mk(tInt(1)), mk(tFloat(1)))
+	}
 	// hand-picked strictness cases
 	pairs := [][2]*Tree{
 		{list1(tInt(1)), list1(tFloat(1))},
@@ -879,6 +924,15 @@ func runC16(c *Ctx) {
 		c.fmtLine(&Tree{K: '[', Xs: []*Tree{tStr(s), obj1(s, tStr(s))}}, 2)
 		c.St.Eval("cp:"+s, true)
 	}
+	c.omoList("C16")
+	c.omoObj("C16")
+	// wide-then-narrow sequences of indents on the same and on different containers
+	for _, seq := range [][]int{{10, 0}, {10, 2, 0, 1}, {4, 4, 2}, {0, 10, 0}, {7, 3, 9, 1}} {
+		for _, n := range seq {
+			c.fmtLine(&Tree{K: '[', Xs: []*Tree{tInt(1), obj1("k", list1(tStr("s")))}}, n)
+			c.fmtLine(obj1("k", &Tree{K: '[', Xs: []*Tree{tInt(1), tInt(2)}}), n)
+		}
+	}
 	opts := &TreeOpts{MaxDepth: 5, MaxWidth: 5}
 	for i := 0; i < c.N(1500, 30000); i++ {
 		t := r.Container(opts, "[{"[r.Intn(2)])
@@ -924,7 +978,7 @@ func (d *errDoc) scalar() {
 		d.add(`"s\n\"x"`)
 	default:
 		// raw line feeds inside a string are characters of the input like any other: they count as lines
-		d.add("\"a\nb\n\nc\\\"d\n\"")
+		d.add("\"a\nb\n\nc\\\"d\n\u2028\u2029\u0085\"")
 	}
 }
 
@@ -1017,7 +1071,7 @@ func (d *errDoc) render(prefix string) (string, int, bool) {
 	line := -1
 	for _, t := range d.toks {
 		for d.r.Chance(35) {
-			sb.WriteString([]string{" ", "\n", "\r\n", "\t", "\r", "\n\n"}[d.r.Intn(6)])
+			sb.WriteString([]string{" ", "\n", "\r\n", "\t", "\r", "\n\n", "\u2028", "\u2029", "\u0085", "\v", "\f", "\u00a0\n", "\u3000"}[d.r.Intn(13)])
 		}
 		if t.mark {
 			line = 1 + strings.Count(sb.String(), "\n")
